@@ -29,7 +29,7 @@ import (
 )
 
 type Step struct {
-	Op string `json:"op"` // inplace | rename | mkdir | swap | rmdir
+	Op string `json:"op"` // inplace | rename | remove | create | mkdir | swap | rmdir
 	F  string `json:"f,omitempty"`
 	C  int    `json:"c"`
 	D  int    `json:"d"`
@@ -199,6 +199,16 @@ func apply(dir string, s Step, n int) error {
 	switch s.Op {
 	case "inplace":
 		return os.WriteFile(path(s.F), content(s.F, s.C), 0o644)
+	case "remove":
+		return os.Remove(path(s.F))
+	case "create":
+		f, err := os.OpenFile(path(s.F), os.O_WRONLY|os.O_CREATE|os.O_EXCL, 0o644) // the path is vacant in the specification state
+		if err != nil {
+			return err
+		}
+		defer f.Close()
+		_, err = f.Write(content(s.F, s.C))
+		return err
 	case "rename":
 		tmp := filepath.Join(dir, fmt.Sprintf(".tmp-%d", n))
 		if err := os.WriteFile(tmp, content(s.F, s.C), 0o644); err != nil {
